@@ -515,6 +515,41 @@ pub fn hostile_space() -> Space<GenCase> {
         });
     }
     dims.push(d);
+    // the same texts further down a list: after a directory-name subtree, after a good subtree, in the excluded list
+    // behind a full permitted list (validation must reach every element)
+    let mut d = Dim::new("nc text position");
+    for t in non_ascii.iter().copied().take(6) {
+        let s = t.to_string();
+        let dirn = DnSpec(vec![(DnTypeSpec::O, StrKind::Utf8, "dir".into())]);
+        d = d.v(format!("permitted [dir, dns {}]", short(t)), {
+            let (s, dirn) = (s.clone(), dirn.clone());
+            move |c: &mut GenCase| {
+                c.st.is_ca = IsCaSpec::Unconstrained;
+                c.st.nc = Some(NcSpec { permitted: vec![SubtreeSpec::Dir(dirn.clone()), SubtreeSpec::Dns(s.clone())], excluded: vec![] });
+                c.hostile.push("ia5");
+            }
+        });
+        d = d.v(format!("permitted [dns ok, ip, dir], excluded [dir, rfc822 {}]", short(t)), {
+            let (s, dirn) = (s.clone(), dirn.clone());
+            move |c: &mut GenCase| {
+                c.st.is_ca = IsCaSpec::Unconstrained;
+                c.st.nc = Some(NcSpec { permitted: vec![SubtreeSpec::Dns("ok.example".into()), SubtreeSpec::Ip(CidrSpec { addr: vec![10, 0, 0, 0], prefix: 8, ctor: CidrCtor::AddrPrefix }), SubtreeSpec::Dir(dirn.clone())], excluded: vec![SubtreeSpec::Dir(dirn.clone()), SubtreeSpec::Email(s.clone())] });
+                c.hostile.push("ia5");
+            }
+        });
+        d = d.v(format!("second crl dp, second uri {}", short(t)), {
+            let s = s.clone();
+            move |c: &mut GenCase| {
+                c.st.crl_dps = vec![vec!["http://ok.example/1".into()], vec!["http://ok.example/2".into(), s.clone()]];
+                c.hostile.push("ia5");
+            }
+        });
+        d = d.v(format!("second idp uri {}", short(t)), move |c: &mut GenCase| {
+            c.crl.idp = Some(IdpSpec { uris: vec!["http://ok.example/".into(), s.clone()], scope: None });
+            c.hostile.push("ia5");
+        });
+    }
+    dims.push(d);
     let mut d = Dim::new("uri text");
     for t in non_ascii.iter().copied() {
         let s = t.to_string();
@@ -553,6 +588,25 @@ pub fn hostile_space() -> Space<GenCase> {
         let o4 = o.clone();
         d = d.v(format!("CustomDnType {}", l), move |c: &mut GenCase| {
             c.st.dn = DnSpec(vec![(DnTypeSpec::Custom(o4.clone()), StrKind::Utf8, "v".into())]);
+            c.hostile.push(tag);
+        });
+        // the same OID further down a list: after good elements of the same kind
+        let o6 = o.clone();
+        d = d.v(format!("CustomDnType after CN and a good custom type {}", l), move |c: &mut GenCase| {
+            c.st.dn = DnSpec(vec![(DnTypeSpec::Cn, StrKind::Utf8, "n".into()), (DnTypeSpec::Custom(vec![1, 2, 3, 4]), StrKind::Utf8, "g".into()), (DnTypeSpec::Custom(o6.clone()), StrKind::Utf8, "v".into())]);
+            c.hostile.push(tag);
+        });
+        let o7 = o.clone();
+        d = d.v(format!("third custom ext, second eku, second otherName {}", l), move |c: &mut GenCase| {
+            c.st.custom_exts = vec![CustomExtSpec { oid: vec![1, 2, 3, 4], critical: false, content: vec![5, 0], acme: false }, CustomExtSpec { oid: vec![1, 2, 3, 5], critical: true, content: vec![5, 0], acme: false }, CustomExtSpec { oid: o7.clone(), critical: false, content: vec![5, 0], acme: false }];
+            c.st.ekus = vec![EkuSpec::ServerAuth, EkuSpec::Other(o7.clone())];
+            c.st.sans = vec![SanSpec::Dns("ok.example".into()), SanSpec::Other(o7.clone(), "v".into())];
+            c.hostile.push(tag);
+        });
+        let o8 = o.clone();
+        d = d.v(format!("name-constraint directory name with CustomDnType {}", l), move |c: &mut GenCase| {
+            c.st.is_ca = IsCaSpec::Unconstrained;
+            c.st.nc = Some(NcSpec { permitted: vec![SubtreeSpec::Dns("ok.example".into()), SubtreeSpec::Dir(DnSpec(vec![(DnTypeSpec::O, StrKind::Utf8, "o".into()), (DnTypeSpec::Custom(o8.clone()), StrKind::Utf8, "v".into())]))], excluded: vec![] });
             c.hostile.push(tag);
         });
         let o5 = o.clone();
